@@ -75,6 +75,7 @@ Section Sound.
                    c_side s_side idle] in *.
 
   Ltac brk :=
+    prj; try discriminate;
     repeat (first
       [ match goal with
         | |- context [match p_fault ?p with _ => _ end] => destruct (p_fault p) eqn:?
@@ -284,23 +285,26 @@ Section Sound.
     { unfold conn. destruct (p_fault p); auto; right;
         destruct (offer p cs) as [oc|]; cbn [offered_id] in *; try reflexivity; rewrite Hl; reflexivity. }
     destruct Hc as [Hf|Hc].
-    - unfold conn. rewrite Hf. prj. repeat split; try (intro; discriminate); reflexivity.
+    - unfold conn. rewrite Hf. prj. repeat split; intros; try discriminate; reflexivity.
     - rewrite Hc. split; [apply full_mode|].
       unfold conn_full.
       split; intro He; brk; repeat split; try reflexivity;
         repeat match goal with H : negb _ = false |- _ => apply negb_false_iff in H end;
-        match goal with H : K_eqb _ _ = true |- _ => apply K_eqb_spec in H; apply KB_inj in H; tauto end.
+        match goal with H : K_eqb _ _ = true |- _ => apply K_eqb_spec in H; apply KB_inj in H; intuition congruence end.
   Qed.
 
-  (* the result of a fallback does not depend on what the stale entry contained *)
+  (* the result of a fallback does not depend on what the stale entry contained: whatever session
+     id was offered (and whatever secret was stored with it - it is not even an argument), both
+     outcomes, the server's store operations and every established side (master secret, key block,
+     session id, connection ids) are the same *)
   Theorem fallback_independent_of_stale_entry : forall p off off',
-    (off =? 0) = (off' =? 0) ->
-    r_c (cfull p off) = r_c (cfull p off') \/ r_offered (cfull p off) <> r_offered (cfull p off') \/
-    o_sid (r_c (cfull p off)) <> o_sid (r_c (cfull p off')).
+    let r := cfull p off in let r' := cfull p off' in
+    o_out (r_c r) = o_out (r_c r') /\ o_out (r_s r) = o_out (r_s r') /\ r_sops r = r_sops r' /\
+    (o_out (r_c r) = Established -> r_c r = r_c r') /\
+    (o_out (r_s r) = Established -> r_s r = r_s r').
   Proof.
-    intros p off off' H. unfold conn_full.
-    destruct (p_fault p); brk; auto.
-    all: destruct (N.eq_dec off off') as [->|Hn]; auto.
+    intros p off off'. cbv zeta. unfold conn_full.
+    destruct (p_fault p); brk; repeat split; intros; try discriminate; reflexivity.
   Qed.
 
   (* ---------------------------------------------------------------- keys and connection ids *)
@@ -436,25 +440,14 @@ Section Sound.
      no session on the server *)
   Theorem client_cert_not_stored : forall p cs ss,
     p_ccert p = true -> r_mode (cn p cs ss) = Full ->
-    r_sops (cn p cs ss) = [] /\ post_s ss (cn p cs ss) = ss /\ o_sid (r_s (cn p cs ss)) = 0 \/
-    p_fault p = FEms \/ p_fault p = FCVerify \/ (p_fault p = NoFault /\ p_arr_c p = false) \/
-    (p_fault p = FSVerify /\ p_arr_c p = false).
+    r_sops (cn p cs ss) = [] /\ post_s ss (cn p cs ss) = ss /\
+    (o_out (r_s (cn p cs ss)) = Established -> o_sid (r_s (cn p cs ss)) = 0).
   Proof.
     intros p cs ss Hc Hm.
     destruct (conn_full_inv _ _ _ Hm) as [Hf|(Hr & _)].
-    - left. unfold post_s, conn. rewrite Hf. prj. auto.
+    - unfold post_s, conn. rewrite Hf. prj. repeat split; intros; try discriminate; reflexivity.
     - rewrite Hr. unfold post_s, conn_full. rewrite Hc. cbn [negb N.eqb].
-      destruct (p_fault p) eqn:Hf; auto; brk; auto.
-  Qed.
-
-  Theorem client_cert_server_store_unchanged : forall p cs ss,
-    p_ccert p = true -> r_mode (cn p cs ss) = Full -> post_s ss (cn p cs ss) = ss.
-  Proof.
-    intros p cs ss Hc Hm.
-    destruct (conn_full_inv _ _ _ Hm) as [Hf|(Hr & _)].
-    - unfold post_s, conn. rewrite Hf. reflexivity.
-    - rewrite Hr. unfold post_s, conn_full. rewrite Hc. cbn [negb N.eqb].
-      destruct (p_fault p) eqn:Hf; brk; reflexivity.
+      destruct (p_fault p) eqn:Hf; brk; repeat split; intros; try discriminate; reflexivity.
   Qed.
 
   (* an abbreviated handshake never writes a session *)
@@ -479,15 +472,14 @@ Section Sound.
     (destruct (offer p cs) as [oc|]; cbn [offered_id];
      [destruct (srv_lookup p ss (s_id oc)) as [os|]|]);
     unfold conn_abbr, conn_full; rewrite Hf; intro Hin; brk;
-      repeat (cbn in Hin; try rewrite app_nil_r in Hin;
-              match goal with
-              | H : In _ (_ ++ _) |- _ => apply in_app_or in H; destruct H as [H|H]
-              | H : In _ [] |- _ => destruct H
-              | H : In _ (_ :: _) |- _ => destruct H as [H|H]; [try discriminate|]
-              | H : False |- _ => destruct H
-              end);
-      try match goal with H : MSet _ _ = MSet _ _ |- _ => injection H as <- <- end;
-      cbn; repeat split; try reflexivity.
+      cbn in *; try discriminate;
+      repeat match goal with
+             | H : _ \/ _ |- _ => destruct H
+             | H : False |- _ => destruct H
+             | H : MDel _ = MSet _ _ |- _ => discriminate H
+             | H : MSet _ _ = MSet _ _ |- _ => injection H as <- <-
+             end;
+      cbn; repeat split; reflexivity.
   Qed.
 
   (* ---------------------------------------------------------------- histories *)
@@ -504,7 +496,10 @@ Section Sound.
 
   Lemma run_entry_is_conn : forall evs cs ss e, In e (hrun evs cs ss) ->
     e_r e = cn (e_p e) (e_cs e) (e_ss e).
-  Proof. intros evs cs ss e H. apply (run_all (fun p c s r => r = cn p c s)); [reflexivity|exact H]. Qed.
+  Proof.
+    intros evs cs ss e H.
+    apply (run_all (fun p c s r => r = cn p c s) (fun p c s => eq_refl) evs cs ss e H).
+  Qed.
 
   Lemma run_app : forall pre rest cs ss, exists cs' ss',
     hrun (pre ++ rest) cs ss = hrun pre cs ss ++ hrun rest cs' ss'.
